@@ -626,7 +626,7 @@ impl Pool {
     }
 
     pub fn is_auth_query_configured(&self) -> bool {
-        self.auth_query_password.is_some()
+        self.auth_query.is_some()
             && self.auth_query_user.is_some()
             && self.auth_query_password.is_some()
     }
